@@ -56,7 +56,7 @@ for _pid, _why in [
 ]:
     na(_pid, _why)
 
-prop("C02", ["sql_prec", "static_eval", "operator_tpl", "literals", "lex_numbers", "cid_inline", "lex_end_expr", "prql_prec", "range_sugar", "lower_expr"], select={"operator_tpl": lambda n: not n.split(".", 1)[1].startswith("WFA."), "lower_expr": lambda n: n.split(".", 1)[1] in ("LO1", "LO1i", "LC1", "LC1i", "LA1", "LA1i", "LP1", "LL1", "MB1") or n.endswith(".safety"), "range_sugar": lambda n: n.split(".", 1)[1].startswith(("EB1.", "EB2.", "EU", "IN", "NB1", "EN1", "NS1", "RR", "RN1")) or n.endswith(".safety"), "prql_prec": lambda n: n.split(".", 1)[1].startswith(("PP1.", "FP1.")) or n.split(".", 1)[1] in ("NPF", "needs_parenthesis.safety", "BA1", "WW1"), "literals": lambda n: n.split(".", 1)[1] in ("TL1i", "TL1f", "NE1", "number_expr.safety")},
+prop("C02", ["sql_prec", "static_eval", "operator_tpl", "literals", "lex_numbers", "cid_inline", "lex_end_expr", "prql_prec", "range_sugar", "lower_expr", "sql_case"], select={"operator_tpl": lambda n: not n.split(".", 1)[1].startswith("WFA."), "lower_expr": lambda n: n.split(".", 1)[1] in ("LO1", "LO1i", "LC1", "LC1i", "LA1", "LA1i", "LP1", "LL1", "MB1") or n.endswith(".safety"), "range_sugar": lambda n: n.split(".", 1)[1].startswith(("EB1.", "EB2.", "EU", "IN", "NB1", "EN1", "NS1", "RR", "RN1")) or n.endswith(".safety"), "prql_prec": lambda n: n.split(".", 1)[1].startswith(("PP1.", "FP1.")) or n.split(".", 1)[1] in ("NPF", "needs_parenthesis.safety", "BA1", "WW1"), "literals": lambda n: n.split(".", 1)[1] in ("TL1i", "TL1f", "NE1", "number_expr.safety")},
      not_covered="evaluation inside the database; dialect templates beyond the strengths they declare; sites that build SQL operands "
                  "without translate_operand (process_concat, process_array_in, try_into_between) are not yet under contract")
 claim("C02",
@@ -69,11 +69,11 @@ claim("C02",
       "coalesce of literals (SE1), `case` reduced to its first TRUE branch or null, for any number of branches (SE2, loop invariant), ids and spans kept (SE3). "
       "a negative number literal is emitted as a unary minus on its magnitude, so no atom starts with a sign and `-` applied to it is parenthesized instead of forming `--` (literals TL1i, TL1f, NE1). Table obligations (one per row): for every constructible "
       "(parent operator, child class, side) the real strength/associativity tables never leave an operand bare where SQLite's documented "
-      "grammar would re-associate it (NP2.*). the operators are expanded to the std functions they are documented to be, with the operand written left of the operator bound to the parameter that stands for it - the position is read from std.prql on every run, so the operand swap of `**` in expand_binary and `let pow = exponent column` must agree (range_sugar EB1.<op>, EB2.<op>, one pair per operator; new_binop, Expr::new, FuncCall::new_simple whole); unary `-` / `!` / `+` / `==name` (EU1-4); `x | in a..b` is x >= a && x <= b, an open bound imposes nothing (IN1-3). lowering keeps an operator's name and its operands in order, and the branches of a `case` in order with condition and value in place (lower_expr LO1, LC1). NOT proved: that the database evaluates operators as documented.",
+      "grammar would re-associate it (NP2.*). the operators are expanded to the std functions they are documented to be, with the operand written left of the operator bound to the parameter that stands for it - the position is read from std.prql on every run, so the operand swap of `**` in expand_binary and `let pow = exponent column` must agree (range_sugar EB1.<op>, EB2.<op>, one pair per operator; new_binop, Expr::new, FuncCall::new_simple whole); unary `-` / `!` / `+` / `==name` (EU1-4); `x | in a..b` is x >= a && x <= b, an open bound imposes nothing (IN1-3). lowering keeps an operator's name and its operands in order, and the branches of a `case` in order with condition and value in place (lower_expr LO1, LC1). a `case` reaches SQL with every branch as a WHEN / THEN pair in order, a last `true => v` as ELSE and ELSE NULL otherwise - no branch is left out because of its value (sql_case CA1-3, the Case arm of translate_expr). NOT proved: that the database evaluates operators as documented.",
       "Oracle = SQLite's documented precedence table (the executable grammar here). translate_expr is external (uninterpreted result, "
       "Context state not modelled); sqlparser enums are mechanically generated skeletons; sqlparser's Display is trusted to print trees as written.")
 
-prop("C01", ["split_order", "take_range", "operator_tpl", "vec_utils", "group_take", "flatten_sort", "sort_take", "sort_infer", "setop_pairs", "lower_transform", "positional_map", "sql_prec", "literal_rows", "lower_expr", "sql_relations"],
+prop("C01", ["split_order", "take_range", "operator_tpl", "vec_utils", "group_take", "flatten_sort", "sort_take", "sort_infer", "setop_pairs", "lower_transform", "positional_map", "sql_prec", "literal_rows", "lower_expr", "sql_relations", "sql_case"],
      select={"operator_tpl": lambda n: not n.split(".", 1)[1].startswith("WFA."), "sql_relations": lambda n: n.split(".", 1)[1] in ("JN1", "JN2", "translate_join.safety"), "sql_prec": lambda n: n.split(".", 1)[1] in ("NP5eq", "NP5ne", "process_null.safety", "NP6a", "NP6b", "try_into_between.safety", "try_into_between.precondition")},
      not_covered="anchor_split cid redirection, preprocess (distinct/union recognition), lowering, flattening, the other pluck call sites of translate_select_pipeline (select / sort / take / join): hash-map threaded folds over three "
                  "IRs; a violation there is invisible to these contracts")
@@ -180,7 +180,7 @@ claim("C10",
       "HashSet<Ident> is a shim with a ghost set view; in resolve_guards lookup_in is external (it is under contract in name_lookup, where Module::lookup is external: the mutual recursion is cut at the contracts, its termination is not proved); resolve_ident_wildcard, resolve_ident_fallback, ambiguous_error, expr_of_func are "
       "external; the drain loop over named parameters is replaced by its contract (stated in the evidence).")
 
-prop("C09", ["ident_quote", "ids_names", "rel_names", "ident_regex", "dialect_flags", "literals", "select_shape", "interp_ident", "lex_end_expr", "sql_relations", "anchor_names", "ident_kinds"], select={"sql_relations": lambda n: n.split(".", 1)[1] in ("RA1", "RA2", "table_alias_slice.safety"), "lex_end_expr": lambda n: ".continues." in n, "select_shape": lambda n: n.split(".", 1)[1] in ("SS2a", "SS2b", "SS2c", "translate_select_item.safety"), "dialect_flags": lambda n: n.rsplit(".", 1)[1] == "ident_quote", "literals": lambda n: n.split(".", 1)[1] in ("FM1", "FM2", "format_slice.safety")},
+prop("C09", ["ident_quote", "ids_names", "rel_names", "ident_regex", "dialect_flags", "literals", "select_shape", "interp_ident", "lex_end_expr", "sql_relations", "anchor_names"], select={"sql_relations": lambda n: n.split(".", 1)[1] in ("RA1", "RA2", "table_alias_slice.safety"), "lex_end_expr": lambda n: ".continues." in n, "select_shape": lambda n: n.split(".", 1)[1] in ("SS2a", "SS2b", "SS2c", "translate_select_item.safety"), "dialect_flags": lambda n: n.rsplit(".", 1)[1] == "ident_quote", "literals": lambda n: n.split(".", 1)[1] in ("FM1", "FM2", "format_slice.safety")},
      not_covered="content of the keyword tables; freshness of generated names against user names that are not registered yet; "
                  "the order in which assign_names visits the declarations (a user table named like a generated name is only protected if it is visited first)")
 claim("C09",
@@ -238,7 +238,7 @@ def _safety(name):
 
 
 _ALL_UNITS = ["take_range", "sort_take", "split_order", "window_frame", "dialect_select", "ident_quote", "ids_names", "toposort", "rq_tables",
-              "select_shape", "span_units", "sql_prec", "prql_prec", "literals", "set_ops", "desugar", "resolve_guards", "lex_strings", "limit_clause", "static_eval", "operator_tpl", "rel_names", "lower_cols", "vec_utils", "group_take", "flatten_sort", "star_exclude", "std_arity", "limit_select", "rq_shape", "star_cols", "func_env", "json_lits", "cte_define", "type_meet", "fmt_strings", "concat_ops", "sstring_query", "sstring_cols", "lineage_except", "sort_infer", "setop_pairs", "setops_reach", "tuple_unpack", "resolver_unwraps", "name_lookup", "frame_decls", "select_cols", "lower_transform", "sort_names", "positional_map", "fmt_interp", "datetime_lit", "lex_numbers", "rq_fold", "dialect_flags", "cid_inline", "module_names", "compose_errors", "lex_end_expr", "fmt_names", "header_args", "literal_rows", "tuple_helpers", "pipeline_types", "lower_ident", "sql_templates", "interp_ident", "table_instance", "fmt_width", "span_frame", "range_sugar", "pl_fold", "lower_expr", "sql_relations", "anchor_names", "ident_kinds"]
+              "select_shape", "span_units", "sql_prec", "prql_prec", "literals", "set_ops", "desugar", "resolve_guards", "lex_strings", "limit_clause", "static_eval", "operator_tpl", "rel_names", "lower_cols", "vec_utils", "group_take", "flatten_sort", "star_exclude", "std_arity", "limit_select", "rq_shape", "star_cols", "func_env", "json_lits", "cte_define", "type_meet", "fmt_strings", "concat_ops", "sstring_query", "sstring_cols", "lineage_except", "sort_infer", "setop_pairs", "setops_reach", "tuple_unpack", "resolver_unwraps", "name_lookup", "frame_decls", "select_cols", "lower_transform", "sort_names", "positional_map", "fmt_interp", "datetime_lit", "lex_numbers", "rq_fold", "dialect_flags", "cid_inline", "module_names", "compose_errors", "lex_end_expr", "fmt_names", "header_args", "literal_rows", "tuple_helpers", "pipeline_types", "lower_ident", "sql_templates", "interp_ident", "table_instance", "fmt_width", "span_frame", "range_sugar", "pl_fold", "lower_expr", "sql_relations", "anchor_names", "ident_kinds", "sql_case"]
 
 
 def _c12_split_order(n):
